@@ -9,9 +9,25 @@ from props import c07
 ID = "C06"
 LEVEL = "proof"
 LEAN_IMPORTS = ["WM.Props.C06"]
-THEOREMS = ["WM.C06.content", "WM.C06.buildOnce_content", "WM.C06.layout_invisible", "WM.C06.postings_renumber",
-            "WM.C06.postings_canonical", "WM.C06.stats", "WM.C06.optimize_purges", "WM.C06.group_adjacent"]
-PARTIAL = {}
+THEOREMS = ["WM.C06.content", "WM.C06.buildOnce_content", "WM.C06.partition_invisible", "WM.C06.postings_content",
+            "WM.C06.layout_invisible", "WM.C06.postings_renumber", "WM.C06.postings_canonical", "WM.C06.stats",
+            "WM.C06.optimize_purges", "WM.C06.group_adjacent", "WM.C06.group_history"]
+PARTIAL = {
+    "WM.C06.partition_invisible": "proved for partitions of a session's *additions* (any cut of a list of add_document calls "
+                                  "into commits, and commit-then-add after arbitrary calls); moving a commit across a deletion "
+                                  "changes the meaning (deletions act on committed documents) and is not claimed; cuts at other "
+                                  "places are covered by `content` only through the dictionary state they reach",
+    "WM.C06.stats": "field_length sums the stored per-document length, which the model treats as an opaque number copied by "
+                    "add_reader; that the stored length byte is a fixed point of byte_to_length/length_to_byte (so a merge "
+                    "cannot change it) is C09's `lengthbyte`, not re-derived here; scores are compared by the check only",
+    "WM.C06.group_adjacent": "three single-step facts (a block added by a writer is adjacent after its commit; an adjacent run of "
+                             "a segment survives the next commit, modulo the schema restriction of removed fields; deletions keep "
+                             "the remaining members adjacent); group_history composes the first two over any history of adding / "
+                             "merging sessions; a history that deletes or changes the schema after the group was committed is "
+                             "covered by the single steps and by the check (group-not-adjacent on every dump) only",
+    "WM.C06.group_history": "later sessions only add documents and merge (any re-arranging policy); deletions, updates and schema "
+                            "changes after the group was committed are outside this theorem",
+}
 RULE = ("one operation list (normalised sessions: schema changes, deletions, additions) executed under 3-5 histories: "
         "sessions cut into extra commits, merge kinds re-drawn among NO_MERGE/MERGE_SMALL/OPTIMIZE, no-op commits "
         "inserted, codec block size / storage / packing re-drawn; non-trivial = at least two histories end in a "
@@ -24,7 +40,9 @@ TRUSTED = c07.TRUSTED + ["SortingPool/heapq.merge: modelled as 'sorted permutati
 MANIFEST = {
     "level_text": "Lean theorems over the SegmentWriter model: the content of any history (any partition into commits, any "
                   "re-arranging merge policy, CLEAR, cancels) equals that of the single optimised build of the dictionary's "
-                  "final documents; add_reader renumbers postings through docmap exactly; without deletions df/weight/"
+                  "final documents; every partition of the same additions into commits reaches the same dictionary state and the same "
+                  "content; the live postings of the whole index are exactly those of the live documents (so the term index is "
+                  "determined by the content); add_reader renumbers postings through docmap exactly; without deletions df/weight/"
                   "field length/doc count are functions of the content; OPTIMIZE purges deleted documents and removed "
                   "fields. Tied to whoosh by running one op list under several histories/configurations and comparing "
                   "canonical dumps pairwise, with the model (layout, MERGE_SMALL decisions, postings by number) and the spec.",
@@ -38,6 +56,10 @@ PROBES = c07.PROBES
 
 
 def _base_world(seed_tuple):
+    if seed_tuple[0] == "corpus":
+        rec = io.load_corpus(seed_tuple[1])
+        w = rec["world"]
+        return w, [(dict(w, sessions=v[0]), v[1], v[2]) for v in rec["variants"]]
     pid, seed, tier, i = seed_tuple
     rng = random.Random("%s:%s:world:%d" % (pid, seed, i))
     if i % 8 == 7:
@@ -63,6 +85,7 @@ def _base_world(seed_tuple):
         cfg["storage"] = rng.choice(["file", "file", "ram"])
         cfg["compound"] = rng.random() < 0.7
         cfg["mmap"] = rng.random() < 0.7
+        cfg["limitmb"] = rng.choice([128, 128, 0.0004, 0.002, 0.01])
         variants.append((vw, marks, cfg))
     return w, variants
 
@@ -94,7 +117,7 @@ def _canon(d, strip_not=False):
         v = d["probes"].get(name)
         if v is None:
             continue
-        v = dict((a, b) for a, b in v.items() if a != "scores")
+        v = dict((a, b) for a, b in v.items() if a not in ("scores", "top"))
         if strip_not and io.has_not(q) and "docs" in v:
             # known finding (InverseMatcher): ignore deleted documents a Not query returned
             v["docs"] = [k for k in v["docs"] if k not in dead]
@@ -168,8 +191,10 @@ def compare_layouts(ctx, case):
 
 
 def run(ctx):
-    n = ctx.budget(160, 2400)
-    seeds = [(ID, ctx.seed, ctx.tier, i) for i in range(n)]
+    n = ctx.budget(180, 2400)
+    corpus = io.corpus_items(ID)
+    ctx.stat("corpus-cases", len(corpus))
+    seeds = corpus + [(ID, ctx.seed, ctx.tier, i) for i in range(n)]
     cases = ctx.pmap(_run_case, seeds, chunksize=4)
     # model/spec for every run
     flat = []
@@ -187,8 +212,8 @@ def run(ctx):
         ctx.stat("runs")
     for i, c in enumerate(cases):
         nt = compare_layouts(ctx, c)
-        ctx.case(("world", ctx.seed, i), nontrivial=nt, n=len(c["runs"]))
-        if i < 2:
+        ctx.case(("world", seeds[i][1] if seeds[i][0] == "corpus" else (ctx.seed, i)), nontrivial=nt, n=len(c["runs"]))
+        if len(corpus) <= i < len(corpus) + 2:
             ctx.sample({"base": c["world"]["sessions"][:2], "variant": c["runs"][-1]["world"]["sessions"][:4]})
 
 
